@@ -105,6 +105,10 @@ func Assert(id string, cond bool) {
 	}
 }
 
+// Check states obligation id like Assert, but the execution continues as if nothing had been asserted
+// (for obligations that are independent of each other, e.g. one per store prefix).
+func Check(id string, cond bool) { Assert(id, cond) }
+
 // Reach marks a point that must be reachable (vacuity witness).
 func Reach(id string) { Reached = append(Reached, id) }
 
